@@ -70,7 +70,7 @@ def gen_fwd_rev(g, rng, tier, n):
         t = g.tree(depth_for(rng, tier), ALL_OPS, mode)
         a, b = g.window()
         if b is None:
-            b = rng.randrange(0, 9)
+            b = g.off + rng.randrange(0, 9)
             if a is not None and a >= b:
                 a = b - 1
         if rng.random() < 0.15 and a is not None:
@@ -85,8 +85,8 @@ def gen_nested_windows(g, rng, tier, n):
         mode = None if k % 4 == 0 else rng.choice(["disjoint", "touch"])
         t = tree_with_leaf_filters(g, rng, depth_for(rng, tier), EVENT_OPS, mode)
         a, b = g.window()
-        lo = -1 if a is None else a
-        hi = 9 if b is None else b
+        lo = g.off - 1 if a is None else a
+        hi = g.off + 9 if b is None else b
         if hi - lo < 1:
             hi = lo + 1
         a2 = rng.randrange(lo, hi)
